@@ -78,3 +78,32 @@ def reset_caches():
     else:
         for c in _find_caches():
             c.cache_clear()
+
+
+class native:
+    """run a block without CrossHair tracing (concrete, fast); no-op under replay"""
+
+    def __init__(self, unwalled=False):
+        self.unwalled = unwalled
+
+    def __enter__(self):
+        self.cm = None
+        self.wall = None
+        if os.environ.get("SQV_MODE") == "crosshair":
+            from crosshair.tracers import NoTracing
+            self.cm = NoTracing()
+            self.cm.__enter__()
+            if self.unwalled:
+                # constructing SqParser() rewrites the SNAPSHOT's gen/*.py: allowed here, nowhere else
+                from crosshair import auditwall
+                if auditwall._ENABLED:
+                    self.wall = auditwall.opened_auditwall()
+                    self.wall.__enter__()
+        return self
+
+    def __exit__(self, *exc):
+        if self.wall is not None:
+            self.wall.__exit__(*exc)
+        if self.cm is not None:
+            self.cm.__exit__(*exc)
+        return False
